@@ -165,6 +165,12 @@ def huge_pairs(tier):
                 out.append(({"pat": pat, "n": n}, B))
             out.append(({"pat": pat, "n": n}, {"pat": "evens", "n": 2000}))
             out.append(({"pat": pat, "n": n}, {"pat": "shifted", "n": 2049}))
+    # two LONG operands with more than 2^16 (2^17) elements in common: results that outgrow any initial buffer size or block length
+    for n in (65537, 131073) + ((262145,) if tier == "thorough" else ()):
+        out.append(({"pat": "dense", "n": n}, {"pat": "dense", "n": n}))
+        out.append(({"pat": "dense", "n": 2 * n}, {"pat": "evens", "n": n}))
+        out.append(({"pat": "evens", "n": n}, {"pat": "dense", "n": 2 * n}))
+        out.append(({"pat": "evens", "n": 3 * n}, {"pat": "thirds", "n": 2 * n}))
     return out
 
 
